@@ -3,6 +3,53 @@ on the implementation's boundary log (never consult the Coq model)."""
 from k2 import err_id
 
 
+class Live:
+    """multiset of subscribed sources (a source may be subscribed again -- repeat/retry --
+    before its previous subscription is detached); behaves like a set for membership"""
+
+    def __init__(self, d=None):
+        self.d = dict(d or {})
+
+    def add(self, k):
+        self.d[k] = self.d.get(k, 0) + 1
+
+    def discard(self, k):
+        if self.d.get(k, 0) > 0:
+            self.d[k] -= 1
+            if self.d[k] == 0:
+                del self.d[k]
+
+    def __contains__(self, k):
+        return k in self.d
+
+    def __iter__(self):
+        return iter(self.d)
+
+    def __len__(self):
+        return len(self.d)
+
+    def __bool__(self):
+        return bool(self.d)
+
+    def __sub__(self, other):
+        return set(self.d) - set(other)
+
+    def __rsub__(self, other):
+        return set(other) - set(self.d)
+
+    def __le__(self, other):
+        return set(self.d) <= set(other)
+
+    def __or__(self, other):
+        return set(self.d) | set(other)
+
+    def __ror__(self, other):
+        return set(other) | set(self.d)
+
+    def __repr__(self):
+        return repr(sorted(self.d))
+
+
 def timeline(res):
     """-> list of steps: dict(tag, inp, live_before:set, emits:[(kind,val)], subs:[k], unsubs:[k]);
     step 0 is subscribe()."""
@@ -10,11 +57,11 @@ def timeline(res):
     for (tag, kind, a, b) in res["log"]:
         by.setdefault(tag, []).append((kind, a, b))
     steps = []
-    live = set()
+    live = Live()
     n = len(res["inputs"])
     for tag in range(0, n + 1):
         inp = res["inputs"][tag - 1][1] if tag > 0 else None
-        st = dict(tag=tag, inp=inp, live_before=set(live), emits=[], subs=[], unsubs=[])
+        st = dict(tag=tag, inp=inp, live_before=Live(live.d), emits=[], subs=[], unsubs=[])
         for (kind, a, b) in by.get(tag, []):
             if kind == "emit":
                 st["emits"].append((a, b))
@@ -24,7 +71,7 @@ def timeline(res):
             elif kind == "unsub":
                 st["unsubs"].append(a)
                 live.discard(a)
-        st["live_after"] = set(live)
+        st["live_after"] = Live(live.d)
         steps.append(st)
     return steps
 
